@@ -11,7 +11,7 @@
 //	    pre   none|intr|intrclear   before the call, while idle: Interrupt(w) / Interrupt(w);ClearInterrupt()
 //	    program = block in the prefix syntax of lean/GojaModel/C15/Model.lean (L n, P, T, W, Y, N, Q, A, F);
 //	    N kinds 13..18: host functions that re-panic / return the nested call's error WRAPPED (%w, errors.Join, nested)
-//	  answer: res=<ok|exc|intr:V> log=<events> st=<flag>/<jobs>/<call>/<try> after=<..> log2=<..> st2=<..>
+//	  answer: res=<ok|exc|intr:V> log=<events> st=<flag>/<jobs>/<call>/<try>/<asyncRunner> after=<..> log2=<..> st2=<..>
 //
 //	soak <seed> <rounds> <maxDelayMicros>
 //	    a 2nd goroutine interrupts running scripts at random delays (built with -race in the thorough tier);
@@ -97,6 +97,8 @@ func (p *parser) stmt() stmt {
 		return stmt{op: 'N', a: k, n: r, b1: p.block()}
 	case "Q":
 		return stmt{op: 'Q', b1: p.block()}
+	case "H":
+		return stmt{op: 'H', b1: p.block()}
 	case "A":
 		return stmt{op: 'A', b1: p.block(), b2: p.block()}
 	case "B":
@@ -149,6 +151,8 @@ func (r *renderer) stmt(s stmt) string {
 		return out
 	case 'Q':
 		return "Promise.resolve().then(function(){" + r.block(s.b1) + "});"
+	case 'H': // a job made by a thenable (newPromiseResolveThenableJob): the user's then() is the job body
+		return "Promise.resolve({then(zzr){" + r.block(s.b1) + "zzr()}});"
 	case 'A':
 		return "(async function(){" + r.block(s.b1) + "await 1;" + r.block(s.b2) + "})();"
 	case 'B': // async chain of depth 2: the outer async function awaits the inner one's promise
@@ -246,6 +250,14 @@ func wrapErr(mode int, err error) error {
 	return err
 }
 
+// asyncBit: 1 iff the idle VM still points at an async runner (vm.curAsyncRunner != nil)
+func asyncBit(rt *goja.Runtime) int {
+	if goja.VerifC15AsyncIdle(rt) {
+		return 0
+	}
+	return 1
+}
+
 func classify(err error) string {
 	if err == nil {
 		return "ok"
@@ -263,7 +275,7 @@ func classify(err error) string {
 
 func (e *env) state() string {
 	f, j, c, t := goja.VerifC15State(e.rt)
-	return fmt.Sprintf("%d/%d/%d/%d", f, j, c, t)
+	return fmt.Sprintf("%d/%d/%d/%d/%d", f, j, c, t, asyncBit(e.rt))
 }
 
 func (e *env) takeLog() string {
@@ -715,11 +727,12 @@ func tickCase(f []string) string {
 	})
 	_, err := rt.RunString(src)
 	fl, jobs, cs, ts := goja.VerifC15State(rt)
+	ab := asyncBit(rt)
 	t1 := ticks
 	n = -1
 	_, err2 := rt.RunString("tick()")
 	t2 := ticks - t1
-	return fmt.Sprintf("res=%s ticks=%d bad=%d st=%d/%d/%d/%d after=%s ticks2=%d post=%s", classify(err), t1, bads, fl, jobs, cs, ts, classify(err2), t2, postCheck(rt))
+	return fmt.Sprintf("res=%s ticks=%d bad=%d st=%d/%d/%d/%d/%d after=%s ticks2=%d post=%s", classify(err), t1, bads, fl, jobs, cs, ts, ab, classify(err2), t2, postCheck(rt))
 }
 
 func main() {
